@@ -539,3 +539,40 @@ def end_stream_iff_nothing_left(chk, P, key):
             raise mir.AnchorMissing("the cases of HttpContent::is_end_stream (found %d)" % n)
         return True, "", [b.span]
     chk.ob(key, "the request body reports its end exactly when prefix and payload have both been handed over", f)
+
+
+# ---- C11: the reader counts exactly the components the writer puts between prefix and extension -------------------------------------------------
+
+def member_component_count(chk, P, key):
+    def f():
+        from . import fmtspec
+        b = P.body("emit_file::is_file_in_set")
+        try:
+            fid = fmtspec.templates(P.body("emit_file::file_id"))[0][1]
+            fnm = fmtspec.templates(P.body("emit_file::file_name"))[0][1]
+        except (fmtspec.BadTemplate, IndexError, mir.AnchorMissing) as e:
+            raise mir.AnchorMissing("the name templates of emit_file::file_name / file_id (%s)" % e)
+        id_parts = 1 + sum(x[1].count(".") for x in fid if x[0] == "lit")
+        holes = [x for x in fnm if x[0] != "lit"]
+        # prefix . ts . id . ext : the components between prefix and extension are every hole but the first and last, the id counting id_parts
+        want = (len(holes) - 2 - 1) + id_parts
+        found = 0
+        for rb in b.return_blocks():
+            for path in b.acyclic_paths(0, rb, limit=500):
+                r = mir.PathSummary(b, path).ret()
+                if mir.o_const_value(r) is not None:
+                    continue
+                c = mir.norm_cmp(r, lambda o: o[0] == "call" and o[1].callee.get("name") in ("count", "len"))
+                if c is None:
+                    return False, "is_file_in_set answers with %s, not a comparison of the name's component count" % o_str(r)[:100], [], b.span
+                op, l, rr = c
+                k = mir.o_const_value(rr)
+                found += 1
+                if op != "Eq" or k != want:
+                    return False, ("is_file_in_set accepts names whose middle part has `count %s %s` components; the set's own names have exactly %d (period, "
+                                   "counter, id - read off the writer's templates): a sibling set whose prefix extends this one's by a dotted part "
+                                   "(`app.web` next to `app`) would be listed, reused and deleted as this set's" % (op, k, want)), [], b.span
+        if not found:
+            raise mir.AnchorMissing("the component-count comparison of is_file_in_set")
+        return True, "", [b.span]
+    chk.ob(key, "a member's name has exactly as many dotted components between prefix and extension as the writer's templates produce", f)
